@@ -8,7 +8,7 @@
 3. The Go driver concretises every case (schema-validated JSON definition, real VCs/VPs) and judges the REAL outcomes
    against the reference expectations (VIOLATION) and against the descriptive prediction (DRIFT).
 """
-import json, os, random, re, time
+import collections, json, os, random, re, shutil, time
 from .. import vlib
 from ..vlib import Report, Inconclusive
 
@@ -48,6 +48,18 @@ def check_pattern_table(rows):
         if got != (r["m"], r["cap"]):
             bad.append((r, got))
     return bad
+
+
+def action_coverage():
+    d = vlib.scratch("pexdot")
+    try:
+        f = os.path.join(d, "graph.dot")
+        r = vlib.tlc("MCPex", "Pex.cover.cfg", workers=1, timeout=600, extra=["-dump", "dot,actionlabels", f])
+        if not r.ok or not os.path.exists(f):
+            raise Inconclusive("vacuity run failed: %s %s" % (r.violation, r.error))
+        return dict(collections.Counter(re.findall(r'label="(\w+)"', open(f).read())))
+    finally:
+        shutil.rmtree(d, ignore_errors=True)
 
 
 def canonical(c):
@@ -187,14 +199,17 @@ def run(prop, tier, seed, replay=None):
     binary = vlib.build_driver("pex")
 
     # 1. the prescriptive design satisfies the five invariants (+ NoPanic) on every case of the configuration
-    m = vlib.tlc("MCPex", "Pex.check.%s.cfg" % tier, workers=WORKERS, timeout=2400, coverage=not quick)
+    m = vlib.tlc("MCPex", "Pex.check.%s.cfg" % tier, workers=WORKERS, timeout=2400)
     if m.error:
         raise Inconclusive("TLC Pex.check: %s\n%s" % (m.error, m.raw[-1500:]))
     if m.violation:
         raise Inconclusive("the prescriptive model violates %s (specification must be repaired):\n%s" % (m.violation, m.raw[-3000:]))
     models = [dict(cfg="Pex.check.%s.cfg" % tier, states=m.distinct, transitions=m.generated, depth=m.depth, wall_s=round(m.wall, 1), invariants=INVARIANTS)]
-    cover = dict(m.coverage)
+    cover = {}
     if not quick:
+        # vacuity guard (TLC -coverage does not terminate on the recursive operators of this module): the state graph of
+        # the one-case family `mini` is dumped with action labels; every action must label an edge
+        cover = action_coverage()
         missing = [a for a in ACTIONS if not cover.get(a)]
         if missing:
             raise Inconclusive("vacuity: actions never fired in the model: %s" % missing)
@@ -237,7 +252,7 @@ def run(prop, tier, seed, replay=None):
         fam_count[c["fam"]] = fam_count.get(c["fam"], 0) + 1
         class_count[c["exp"]["class"]] = class_count.get(c["exp"]["class"], 0) + 1
         selected = r.get("real") == "ok" and c["exp"]["pred"]["res"] == "ok" and len(c["exp"]["pred"]["map"]) > 0
-        must_fail = (not c["exp"]["complete"]) and len(c["wallet"]) > 0
+        must_fail = (not c["exp"]["complete"]) and any(row["cs"] for row in c["exp"]["sat"])
         if selected or must_fail or r.get("real") == "panic":
             nontrivial.add(canonical(c))
         if r.get("real") == "ok":
@@ -256,7 +271,7 @@ def run(prop, tier, seed, replay=None):
                cases_enumerated_by_tlc=len(cases), cases_replayed_on_real_code=len(chosen), real_calls=stats["calls"],
                cases_by_family=fam_count, cases_by_predicted_deviation_class=class_count, real_match_outcomes=stats["real"],
                mutated_submissions_validated=n_sub, mutated_submissions_that_must_be_rejected=n_sub_reject,
-               cases_with_violation=stats["viol_cases"], drift_cases=stats["drift_cases"], models=models, action_coverage=cover,
+               cases_with_violation=stats["viol_cases"], drift_cases=stats["drift_cases"], models=models, action_coverage_mini_family=cover,
                known_findings_seen=sorted(rep.known),
                rule="TLC enumerates every (definition, wallet) pair of four families of MCPex.tla (filters: every filter kind x value kind x "
                     "credential format; format: definition x descriptor format designations; reqs: <=3 descriptors x every schema-valid "
@@ -264,8 +279,9 @@ def run(prop, tier, seed, replay=None):
                     "submission x 6 envelope shapes) and prints each with the expectations of the TLA+ reference matcher; each printed case is "
                     "concretised and run on the real Match/Build/Validate/ResolveConstraintsFields%s. evaluations = oracle decisions taken on "
                     "real outcomes. distinct_nontrivial = distinct (definition, wallet) pairs in which the real wallet selected at least one "
-                    "credential, or panicked, or the reference says no complete selection exists for a non-empty wallet, plus distinct mutated "
-                    "submissions validated; pairs where an empty or unrelated wallet trivially fails are not counted."
+                    "credential, or panicked, or the reference says no complete selection exists although the wallet holds a credential that "
+                    "satisfies at least one descriptor (near miss), plus distinct mutated submissions validated; pairs where an empty or "
+                    "unrelated wallet trivially fails, or a complete wallet is refused for another reason, are not counted."
                     % (3 if quick else 4, " (quick: all small families + a seeded 40%% sample of the reqs family stratified by predicted class)" if quick else ""))
     vlib.write_evidence(prop, tier, seed, "exploration", cov, time.time() - t0, len(rep.violations),
                         ["go-did parses/marshals credentials and presentations as the node does (same library)",
